@@ -148,6 +148,8 @@ class Inside:
         self.seqmap = beh["seqmap"]                       # model name -> real ConfigSequenceNumber
         self.unseq = {v: k for k, v in self.seqmap.items()}
         self.lazy = None                                   # stdin of a spawned, still inert service (script mode)
+        self.log_mark = {}
+        self.beh_id, self.step_no = beh["id"], 0
         self.svc_log_pos = {}
         with open("/etc/os-release", "w") as f:
             f.write(OS_RELEASE[beh.get("os", "ubuntu")])
@@ -399,7 +401,9 @@ class Inside:
             return {"k": "iter", "noop": True}
         h = pre["svcs"][0]["h"]
         first = False
-        mark = len(self.svc_log(h))
+        # everything the service logged since the last observed iteration ended belongs to this one (under load the
+        # steps between two iterations may take long enough for the next iteration to have begun already)
+        mark = self.log_mark.get(h, 0) if self.lazy is None else len(self.svc_log(h))
         if self.lazy is not None:
             self.lazy.write(b'{"kind":"handler","cmd":"service"}\n')
             self.lazy.flush()
@@ -408,8 +412,20 @@ class Inside:
         t0 = time.time()
         seen_at, last_len = None, mark
         while True:
-            if time.time() - t0 > 40:
-                self.die("no iteration of the service loop within 40 s (log: %r)" % self.svc_log(h)[mark:][-600:], 4)
+            if time.time() - t0 > 75:
+                procs = []
+                for pp in os.listdir("/proc"):
+                    if pp.isdigit():
+                        try:
+                            procs.append((int(pp), open("/proc/%s/comm" % pp).read().strip(),
+                                          open("/proc/%s/stat" % pp).read().split(") ")[1][0],
+                                          open("/proc/%s/wchan" % pp).read().strip()))
+                        except OSError:
+                            pass
+                self.die("no iteration of the service loop within 75 s (step %d of %s; new log: %r; log tail: %r; "
+                         "processes: %s; handler output: %r)"
+                         % (self.step_no, self.beh_id, self.svc_log(h)[mark:][-400:], self.svc_log(h)[-400:], sorted(procs),
+                            open(os.path.join(self.W, "cmd.out"), errors="replace").read()[-400:]), 4)
             time.sleep(0.2)
             log = self.svc_log(h)
             if len(log) != last_len:
@@ -419,6 +435,7 @@ class Inside:
                     seen_at = seen_at or time.time()
             elif seen_at and time.time() - quiet_since >= 2.0:
                 break
+        self.log_mark[h] = len(self.svc_log(h))
         post = self.snapshot()
         calls = self.setup_calls()
         ch = self.changed(pre, post)
@@ -437,6 +454,7 @@ class Inside:
         loop = False
         for st in beh["steps"]:
             k = st["k"]
+            self.step_no += 1
             if k == "cmd":
                 o = self.run_cmd(st["h"], st["c"], st["seq"], loop)
                 if o["nsvc"] == 0:
@@ -827,6 +845,31 @@ def _run(c):
             raise util.ToolError("%s not available" % tool)
     bindir = build.cargo_build("ext")
     setup_bin = c17.build_setup(release=True)
+
+    # 0. function-level probe of common.rs (pub functions, explicit directories, no namespace needed): the
+    #    sequence-number file protocol and the path a status file gets -- including the empty sequence number
+    pd = os.path.join(SCRATCH, "fnprobe")
+    os.makedirs(os.path.join(pd, "h"))
+    q = [{"kind": "handler", "cmd": "fn", "op": "get_seq", "dir": os.path.join(pd, "h")},
+         {"kind": "handler", "cmd": "fn", "op": "update_seq", "dir": os.path.join(pd, "h"), "seq": "7"},
+         {"kind": "handler", "cmd": "fn", "op": "update_seq", "dir": os.path.join(pd, "h"), "seq": "7"},
+         {"kind": "handler", "cmd": "fn", "op": "update_seq", "dir": os.path.join(pd, "h"), "seq": "3"},
+         {"kind": "handler", "cmd": "fn", "op": "get_seq", "dir": os.path.join(pd, "h")},
+         {"kind": "handler", "cmd": "fn", "op": "update_seq", "dir": os.path.join(pd, "missing"), "seq": "3"},
+         {"kind": "handler", "cmd": "fn", "op": "file_path", "dir": os.path.join(pd, "h", "status"), "seq": "7"},
+         {"kind": "handler", "cmd": "fn", "op": "file_path", "dir": os.path.join(pd, "h", "status"), "seq": ""}]
+    pr = subprocess.run([os.path.join(bindir, "verif-ext")], input="\n".join(json.dumps(x) for x in q) + "\n",
+                        stdout=subprocess.PIPE, stderr=subprocess.PIPE, text=True, timeout=60)
+    if pr.returncode != 0:
+        raise util.ToolError("verif-ext fn probe failed rc=%s: %s" % (pr.returncode, pr.stderr[-1500:]))
+    a = [json.loads(x) for x in pr.stdout.splitlines() if x.strip()]
+    want = [{"seq": ""}, {"ok": True, "report": True}, {"ok": True, "report": False}, {"ok": True, "report": True}, {"seq": "3"}]
+    if a[:5] != want or a[5].get("ok") is not False:
+        c.extra.setdefault("model_drift", []).append({"function_probe": a[:6], "expected": want})
+    c.extra["function_probe"] = {
+        "update_current_seq_no": "absent->7 report, 7->7 no report, 7->3 report (string comparison), missing directory -> Err",
+        "get_file_path(status, '7')": os.path.relpath(a[6]["path"], pd), "get_file_path(status, '')": os.path.relpath(a[7]["path"], pd)}
+    c.count("fn-probe", n=len(q))
 
     # 1. behaviours and scenarios from the specification
     sc = scenarios(thorough)
